@@ -171,9 +171,12 @@ func monitor(c Case) (kind, what string, params P) {
 		if !eqInts(got, want) {
 			return fail("xslices-"+c.Fn+"-result", "got %v, want %v", got, want)
 		}
-	case "runs":
+	case "runs", "runsle":
+		// "contiguous runs of elements from s such that same(a, b) returns true for any a and b in the run", same
+		// reflexive and transitive (not necessarily symmetric: "runsle"). What is demanded below is the part of that
+		// sentence that holds under every reading: same(a, b) for a at or before b in the run.
 		l, t := decList(a[0]), decList(a[1])
-		same := func(x, y int) bool { return tableAt(t, x) == tableAt(t, y) }
+		same := sameOf(c.Fn, t)
 		s := clone(l)
 		var runs [][]int
 		if pan, v := vlib.Try(func() { runs = xslices.Runs(s, same) }); pan {
@@ -185,10 +188,10 @@ func monitor(c Case) (kind, what string, params P) {
 			if len(r) == 0 {
 				return "xslices-runs-leading-singleton", fmt.Sprintf("xslices.Runs(%v) = %v: run %d is empty", l, runs, i), nil
 			}
-			for _, x := range r {
-				for _, y := range r {
-					if !same(x, y) {
-						return fail("xslices-runs-not-same", "run %v holds %d and %d which are not the same", r, x, y)
+			for xi, x := range r {
+				for _, y := range r[xi:] {
+					if !same(x, y) || (c.Fn == "runs" && !same(y, x)) {
+						return fail("xslices-runs-not-same", "run %v holds %d before %d which are not the same", r, x, y)
 					}
 				}
 			}
